@@ -15,9 +15,14 @@
     * `live_label_memos_adequate`     kernel-decided over the regenerated table: the history probes of every live
                                       handler reveal no memo with an inadequate key
     * `live_handlers_history_free`    the two composed: every handler of the table, every history
+    * `live_rule_memos_adequate`      the same over the KEYS of the memoised unit rules of unyt/array.py
+                                      (`_unit_rule_cache`: the ufunc / operator / default path), read off cache hits and misses
+    * `live_unit_rules_history_free`  every memoised unit rule, every history
+    * `misses_le_calls`               the memo stores at most one entry per call (no eviction is modelled)
 -/
 import UnytModel.LabelMemo
 import UnytModel.Generated.C07Memo
+import UnytModel.Generated.C07RuleMemo
 
 namespace Unyt.C07Memo
 open Unyt.LabelMemo
@@ -167,5 +172,34 @@ theorem live_label_memos_adequate : Generated.memoRows.all (fun r => r.cfg.adequ
 theorem live_handlers_history_free (r : MemoRow) (hr : r ∈ Generated.memoRows) (w : World) (h : List Ev) :
     run r.cfg w [] h = spec w h :=
   adequate_key_history_free r.cfg (List.all_eq_true.mp live_label_memos_adequate r hr) w h [] (sound_nil _)
+
+/-- **table obligation**: the key of every memoised unit rule of the live `unyt/array.py` (read off cache hits and
+    misses) contains expression and scale -/
+theorem live_rule_memos_adequate : Generated.ruleMemoRows.all (fun r => r.cfg.adequate) = true := by
+  decide +kernel
+
+/-- every memoised unit rule of the ufunc path, every history of registry edits and calls, from process start -/
+theorem live_unit_rules_history_free (r : MemoRow) (hr : r ∈ Generated.ruleMemoRows) (w : World) (h : List Ev) :
+    run r.cfg w [] h = spec w h :=
+  adequate_key_history_free r.cfg (List.all_eq_true.mp live_rule_memos_adequate r hr) w h [] (sound_nil _)
+
+theorem call_cache_length (k : KeyCfg) (c : Cache) (a : Call) : (call k c a).1.length ≤ c.length + 1 := by
+  unfold call
+  cases k.memo <;> simp
+  cases find c (keyOf k a) <;> simp
+
+theorem finalCache_length (k : KeyCfg) (hist : List Call) (c : Cache) :
+    (finalCache k c hist).length ≤ c.length + hist.length := by
+  induction hist generalizing c with
+  | nil => simp [finalCache]
+  | cons a rest ih =>
+    simp only [finalCache, List.length_cons]
+    have h1 := ih (call k c a).1
+    have h2 := call_cache_length k c a
+    omega
+
+/-- the number of misses `c07.history` reports is at most the number of calls of the history -/
+theorem misses_le_calls (k : KeyCfg) (w : World) (h : List Ev) : missesOf k w h ≤ (observed w h).length := by
+  simpa [missesOf] using finalCache_length k (observed w h) []
 
 end Unyt.C07Memo
